@@ -66,6 +66,21 @@ Proof.
   rewrite dedup_In. apply memN_false; auto.
 Qed.
 
+Lemma NoDup_app_iff' {A} (a b : list A) :
+  NoDup (a ++ b) <-> NoDup a /\ NoDup b /\ (forall x, In x a -> ~ In x b).
+Proof.
+  induction a as [|x a IH]; simpl.
+  - split; [intros H; repeat split; auto; constructor | tauto].
+  - split.
+    + intros H. inversion H as [|? ? Hn Hd]; subst. apply IH in Hd as (Ha & Hb & Hab).
+      repeat split; auto.
+      * constructor; auto. intros Hx. apply Hn, in_or_app; auto.
+      * intros y [->|Hy]; auto. intros Hyb. apply Hn, in_or_app; auto.
+    + intros (Ha & Hb & Hab). inversion Ha as [|? ? Hn Hd]; subst. constructor.
+      * intros Hx. apply in_app_or in Hx as [Hx|Hx]; auto. apply (Hab x); auto.
+      * apply IH. repeat split; auto.
+Qed.
+
 (* two sets of equal size one of which contains the other are equal *)
 Lemma same_size_incl a b : set_size a = set_size b -> incl a b -> incl b a.
 Proof.
@@ -214,4 +229,926 @@ Proof.
       eapply ext_trans; [apply IH; lia|]. rewrite replay_snoc.
       destruct (replay_wf cs) as (_ & ? & ?); [lia|]. apply m_apply_ext; lia.
     + rewrite firstn_all2; [apply ext_refl|]. rewrite app_length; simpl; lia.
+Qed.
+
+Lemma replay_head cs : exists l, parts (replay cs) = 0 :: l.
+Proof.
+  induction cs as [|c cs IH] using rev_ind.
+  - exists []. reflexivity.
+  - rewrite replay_snoc. destruct IH as [l Hl]. destruct c; simpl.
+    + destruct (ro _); simpl; eauto.
+    + destruct (ro _); simpl; eauto.
+    + destruct (ro _); simpl; eauto. destruct (negb _); simpl; eauto.
+      destruct (_ <=? _); simpl; eauto. rewrite Hl. simpl. eauto.
+    + eauto.
+Qed.
+
+(* ---------- getPartitions ---------- *)
+Lemma get_parts_from_spec i l q p :
+  q <> 0 ->
+  (In p (get_parts_from i l q) <-> exists k, (k < length l)%nat /\ p = i + N.of_nat k /\ nth k l 0 = q).
+Proof.
+  intros Hq. revert i. induction l as [|c l IH]; intros i; simpl.
+  - split; [tauto | intros (k & Hk & _); lia].
+  - assert (Hq0 : (q =? 0) = false) by (apply N.eqb_neq; auto).
+    rewrite Hq0. simpl.
+    destruct (c =? 0) eqn:Ec0; simpl.
+    + apply N.eqb_eq in Ec0. rewrite IH. split.
+      * intros (k & Hk & -> & Hn). exists (S k). split; [lia|]. split; [lia|]. auto.
+      * intros (k & Hk & -> & Hn). destruct k; [congruence|]. exists k. split; [lia|]. split; [lia|]. auto.
+    + destruct (c =? q) eqn:Ecq; simpl.
+      * apply N.eqb_eq in Ecq. rewrite IH. split.
+        -- intros [<-|(k & Hk & -> & Hn)].
+           ++ exists 0%nat. split; [lia|]. split; [lia|]. auto.
+           ++ exists (S k). split; [lia|]. split; [lia|]. auto.
+        -- intros (k & Hk & -> & Hn). destruct k.
+           ++ left. lia.
+           ++ right. exists k. split; [lia|]. split; [lia|]. auto.
+      * apply N.eqb_neq in Ecq. rewrite IH. split.
+        -- intros (k & Hk & -> & Hn). exists (S k). split; [lia|]. split; [lia|]. auto.
+        -- intros (k & Hk & -> & Hn). destruct k; [simpl in Hn; congruence|].
+           exists k. split; [lia|]. split; [lia|]. auto.
+Qed.
+
+(* the heartbeat reply for a valid curator id is exactly the set of partitions that lookup attributes to it *)
+Lemma get_partitions_lookup s q p :
+  q <> 0 -> nth 0 (parts s) 0 = 0 -> (In p (get_partitions s q) <-> m_lookup s p = ROk q).
+Proof.
+  intros Hq H0. unfold get_partitions. rewrite get_parts_from_spec; auto. rewrite m_lookup_ok. unfold plen. split.
+  - intros (k & Hk & -> & Hn). simpl. rewrite Nat2N.id. split; [|split; [lia|auto]].
+    destruct k; [congruence | lia].
+  - intros (Hp & Hl & Hn). exists (N.to_nat p). split; [lia|]. split; [lia|]. auto.
+Qed.
+
+(* ================= the replica group ================= *)
+Definition canon (w : world) : mstate := replay (w_log w).
+
+Definition honest (lg : list mcmd) (r : replica) : Prop :=
+  (r_applied r <= length lg)%nat /\ r_st r = replay (firstn (r_applied r) lg).
+
+Definition RInv (w : world) : Prop :=
+  Forall (honest (w_log w)) (w_reps w) /\
+  (w_leader w < length (w_reps w))%nat /\
+  r_applied (leader_rep w) = length (w_log w).
+
+Lemma RInv_leader_st w : RInv w -> leader_st w = canon w.
+Proof.
+  intros (Hh & Hl & Ha). unfold leader_st, canon.
+  assert (Hin : In (leader_rep w) (w_reps w)) by (apply nth_In; auto).
+  rewrite Forall_forall in Hh. destruct (Hh _ Hin) as [_ ->]. rewrite Ha, firstn_all. auto.
+Qed.
+
+Lemma honest_snoc lg c r : honest lg r -> honest (lg ++ [c]) r.
+Proof.
+  intros [Ha Hs]. split; [rewrite app_length; lia|].
+  rewrite firstn_app. replace (r_applied r - length lg)%nat with 0%nat by lia.
+  rewrite firstn_O, app_nil_r. auto.
+Qed.
+
+Lemma firstn_add {A} a k (l : list A) : firstn (a + k) l = firstn a l ++ firstn k (skipn a l).
+Proof.
+  revert l; induction a; intros l; simpl; auto.
+  destruct l; simpl; [rewrite firstn_nil; auto|]. rewrite IHa. auto.
+Qed.
+
+Lemma firstn_length_firstn {A} k (x : list A) : firstn (length (firstn k x)) x = firstn k x.
+Proof.
+  rewrite firstn_length. destruct (Nat.le_gt_cases k (length x)).
+  - rewrite Nat.min_l; auto.
+  - rewrite Nat.min_r by lia. rewrite firstn_all, firstn_all2; auto; lia.
+Qed.
+
+Lemma honest_catchup lg r k :
+  honest lg r ->
+  let todo := firstn k (skipn (r_applied r) lg) in
+  honest lg {| r_applied := r_applied r + length todo; r_st := replay_from (r_st r) todo |}.
+Proof.
+  intros [Ha Hs] todo. unfold honest; simpl. split.
+  - unfold todo. rewrite firstn_length, skipn_length. lia.
+  - rewrite Hs. unfold replay. rewrite <- replay_from_app. f_equal.
+    rewrite firstn_add. f_equal. unfold todo. symmetry. apply firstn_length_firstn.
+Qed.
+
+Lemma honest_full lg : honest lg {| r_applied := length lg; r_st := replay lg |}.
+Proof. split; simpl; auto. rewrite firstn_all; auto. Qed.
+
+Lemma honest_rep0 lg : honest lg rep0.
+Proof. split; simpl; [lia | reflexivity]. Qed.
+
+Lemma restore_safe live snap : install_safe live snap = true -> restore_into live snap = snap.
+Proof.
+  unfold install_safe, restore_into. intros H.
+  apply andb_true_iff in H as [H H4]. apply andb_true_iff in H as [H H3]. apply andb_true_iff in H as [H1 H2].
+  destruct snap as [ps nc nt r]; simpl in *.
+  destruct (nc =? 0); [discriminate|]. destruct (nt =? 0); [discriminate|].
+  destruct ps; [discriminate|]. destruct r; auto. destruct (ro live); auto; discriminate.
+Qed.
+
+(* ================= history and curator invariants ================= *)
+Definition HInv (w : world) : Prop :=
+  Forall (fun v => 1 <= v < next_c (canon w)) (h_cids w) /\ NoDup (h_cids w) /\
+  Forall (fun v => 1 <= v < next_t (canon w)) (h_tsids w) /\ NoDup (h_tsids w) /\
+  Forall (fun pc => m_lookup (canon w) (fst pc) = ROk (snd pc)) (h_parts w) /\ NoDup (map fst (h_parts w)).
+
+Definition node_ok (S : mstate) (cur : cstate) (nd : cnode) : Prop :=
+  incl (n_cache nd) (c_parts cur) /\
+  match n_pc nd with
+  | PcStart | PcReg => True
+  | PcCommitReg id => id <> 0
+  | PcNewPart id | PcRun id => id = c_id cur /\ id <> 0
+  | PcCommitPart id p => id = c_id cur /\ id <> 0 /\ m_lookup S p = ROk id
+  end.
+
+Definition CInvP (S : mstate) (cur : cstate) (nodes : list cnode) (fatal : bool) : Prop :=
+  (forall p, In p (c_parts cur) -> c_id cur <> 0 /\ m_lookup S p = ROk (c_id cur)) /\
+  Forall (node_ok S cur) nodes /\
+  fatal = false.
+
+Definition CInv (w : world) : Prop := CInvP (canon w) (w_cur w) (w_nodes w) (w_fatal w).
+
+Definition Inv (w : world) : Prop := RInv w /\ HInv w /\ CInv w.
+
+Definition bound (w : world) : Prop := N.of_nat (length (w_log w)) + 3 < W32.
+
+Definition Frame (w w' : world) : Prop :=
+  w_cur w' = w_cur w /\ w_nodes w' = w_nodes w /\ w_cleader w' = w_cleader w /\ w_fatal w' = w_fatal w.
+
+Lemma Frame_refl w : Frame w w.
+Proof. repeat split. Qed.
+
+Lemma node_ok_ext S S' cur nd : ext S S' -> node_ok S cur nd -> node_ok S' cur nd.
+Proof.
+  intros He [Hc Hp]. split; auto. destruct (n_pc nd); auto.
+  destruct Hp as (? & ? & ?). repeat split; auto. eapply m_lookup_ext; eauto.
+Qed.
+
+Lemma CInvP_ext S S' cur nodes f : ext S S' -> CInvP S cur nodes f -> CInvP S' cur nodes f.
+Proof.
+  intros He (Hp & Hn & Hf). split; [|split]; auto.
+  - intros p Hin. destruct (Hp p Hin). split; auto. eapply m_lookup_ext; eauto.
+  - eapply Forall_impl; [|exact Hn]. intros nd. apply node_ok_ext; auto.
+Qed.
+
+Lemma canon_bounds w : bound w ->
+  parts (canon w) <> [] /\ 1 <= next_c (canon w) /\ next_c (canon w) + 2 < W32 /\
+  1 <= next_t (canon w) /\ next_t (canon w) + 2 < W32.
+Proof.
+  unfold bound, canon. intros Hb. destruct (replay_wf (w_log w)) as (? & ? & ?); [lia|].
+  repeat split; auto; lia.
+Qed.
+
+(* ---------- propose ---------- *)
+Lemma propose_ok w c w' r :
+  RInv w -> HInv w -> bound w -> propose w c = (w', r) ->
+  RInv w' /\ HInv w' /\ Frame w w' /\ w_log w' = w_log w ++ [c] /\ w_mvol w' = w_mvol w /\
+  r = snd (m_apply (canon w) c) /\ canon w' = fst (m_apply (canon w) c) /\ ext (canon w) (canon w').
+Proof.
+  intros HR HH Hb Hp.
+  pose proof (RInv_leader_st w HR) as Hls. unfold leader_st in Hls.
+  destruct (canon_bounds w Hb) as (Hne & Hc1 & Hc2 & Ht1 & Ht2).
+  unfold propose in Hp. rewrite Hls in Hp.
+  destruct (m_apply (canon w) c) as [s' r0] eqn:Ea. injection Hp as Hw Hr0. subst r0. symmetry in Hw.
+  assert (Hcan : canon w' = s').
+  { rewrite Hw. unfold canon; simpl. rewrite replay_snoc. fold (canon w). rewrite Ea. auto. }
+  assert (Hext : ext (canon w) s').
+  { replace s' with (fst (m_apply (canon w) c)) by (rewrite Ea; auto). apply m_apply_ext; lia. }
+  destruct HR as (Hh & Hl & Hla).
+  assert (HR' : RInv w').
+  { rewrite Hw. unfold RInv; simpl. split; [|split].
+    - apply Forall_upd_nth.
+      + eapply Forall_impl; [|exact Hh]. intros; apply honest_snoc; auto.
+      + rewrite Hla. replace (S (length (w_log w))) with (length (w_log w ++ [c])) by (rewrite app_length; simpl; lia).
+        replace s' with (replay (w_log w ++ [c])) by (rewrite <- Hcan, Hw; reflexivity). apply honest_full.
+    - rewrite upd_nth_length; auto.
+    - unfold leader_rep in *; simpl. rewrite nth_upd_nth_eq; auto. simpl. rewrite Hla, app_length; simpl; lia. }
+  split; auto. split.
+  - (* history *)
+    destruct HH as (Hc & Hcn & Ht & Htn & Hpp & Hpn).
+    destruct Hext as (Hex & Hec & Het).
+    assert (Hext : ext (canon w) s') by (split; auto).
+    unfold HInv. rewrite Hcan. rewrite Hw; simpl.
+    assert (Hc' : Forall (fun v => 1 <= v < next_c s') (h_cids w)).
+    { eapply Forall_impl; [|exact Hc]. simpl; intros; lia. }
+    assert (Ht' : Forall (fun v => 1 <= v < next_t s') (h_tsids w)).
+    { eapply Forall_impl; [|exact Ht]. simpl; intros; lia. }
+    assert (Hp' : Forall (fun pc => m_lookup s' (fst pc) = ROk (snd pc)) (h_parts w)).
+    { eapply Forall_impl; [|exact Hpp]. simpl; intros. eapply m_lookup_ext; eauto. }
+    destruct c as [| |c|b]; destruct r as [v|e]; try (repeat split; assumption).
+    + (* CRegCur *)
+      pose proof (m_apply_regcur (canon w) v) as Hr. rewrite Ea in Hr. simpl in Hr.
+      destruct (Hr eq_refl) as [-> Hn]. rewrite u32_small in Hn by (unfold W32 in *; lia).
+      repeat split; auto.
+      * apply Forall_app. split; auto. constructor; auto. lia.
+      * apply NoDup_app_iff'. repeat split; auto. constructor; auto. constructor.
+        intros x Hx [<-|[]]. rewrite Forall_forall in Hc. apply Hc in Hx. lia.
+    + (* CRegTs *)
+      pose proof (m_apply_regts (canon w) v) as Hr. rewrite Ea in Hr. simpl in Hr.
+      destruct (Hr eq_refl) as [-> Hn]. rewrite u32_small in Hn by (unfold W32 in *; lia).
+      repeat split; auto.
+      * apply Forall_app. split; auto. constructor; auto. lia.
+      * apply NoDup_app_iff'. repeat split; auto. constructor; auto. constructor.
+        intros x Hx [<-|[]]. rewrite Forall_forall in Ht. apply Ht in Hx. lia.
+    + (* CNewPart *)
+      pose proof (m_apply_newpart (canon w) c v) as Hr. rewrite Ea in Hr. simpl in Hr.
+      destruct (Hr eq_refl) as (-> & Hv & Hps).
+      pose proof (m_apply_newpart_lookup (canon w) c (plen (canon w)) Hne) as Hlk. rewrite Ea in Hlk. simpl in Hlk.
+      specialize (Hlk eq_refl).
+      repeat split; auto.
+      * apply Forall_app. split; auto.
+      * rewrite map_app. simpl. apply NoDup_app_iff'. repeat split; auto. constructor; auto. constructor.
+        intros x Hx [<-|[]]. apply in_map_iff in Hx as (pc & Hpc1 & Hpc2).
+        rewrite Forall_forall in Hpp. apply Hpp in Hpc2. apply m_lookup_ok in Hpc2. lia.
+  - rewrite Hcan. simpl.
+    split; [rewrite Hw; repeat split; auto|].
+    split; [rewrite Hw; reflexivity|]. split; [rewrite Hw; reflexivity|]. auto.
+Qed.
+
+(* ---------- the master API on the leader ---------- *)
+Definition MOk (w w' : world) : Prop :=
+  RInv w' /\ HInv w' /\ Frame w w' /\ ext (canon w) (canon w') /\ (length (w_log w') <= S (length (w_log w)))%nat.
+
+Lemma set_vol_MOk w v : RInv w -> HInv w -> MOk w (set_vol w v) /\ canon (set_vol w v) = canon w.
+Proof.
+  intros HR HH. split; [|reflexivity].
+  split; [unfold RInv, leader_rep in *; simpl; exact HR|].
+  split; [unfold HInv, canon in *; simpl; exact HH|].
+  split; [repeat split|]. split; [apply ext_refl | simpl; lia].
+Qed.
+
+Lemma MOk_trans a b c : MOk a b -> MOk b c -> (length (w_log c) <= S (length (w_log a)))%nat -> MOk a c.
+Proof.
+  intros (_ & _ & (F1 & F2 & F3 & F4) & E1 & _) (R & H & (G1 & G2 & G3 & G4) & E2 & _) Hl.
+  split; auto. split; auto. split; [repeat split; congruence|]. split; auto. eapply ext_trans; eauto.
+Qed.
+
+Lemma propose_MOk w c w' r :
+  RInv w -> HInv w -> bound w -> propose w c = (w', r) ->
+  MOk w w' /\ r = snd (m_apply (canon w) c) /\ canon w' = fst (m_apply (canon w) c) /\ w_mvol w' = w_mvol w.
+Proof.
+  intros HR HH Hb Hp. destruct (propose_ok w c w' r HR HH Hb Hp) as (R & H & F & L & V & Er & Ec & Ex).
+  split; [|auto]. split; auto. split; auto. split; auto. split; auto. rewrite L, app_length; simpl; lia.
+Qed.
+
+Lemma m_register_curator_ok w w' r :
+  RInv w -> HInv w -> bound w -> m_register_curator w = (w', r) ->
+  MOk w w' /\ (forall id, r = ROk id -> id <> 0).
+Proof.
+  intros HR HH Hb H. unfold m_register_curator in H.
+  destruct (propose w CRegCur) as [w1 r1] eqn:Ep.
+  destruct (propose_MOk w CRegCur w1 r1 HR HH Hb Ep) as (M1 & Er & Ec & _).
+  assert (Hid : forall id, r1 = ROk id -> id <> 0).
+  { intros id ->. symmetry in Er. apply m_apply_regcur in Er as [-> _].
+    destruct (canon_bounds w Hb) as (_ & ? & _). lia. }
+  destruct r1 as [id|e].
+  - destruct (vol_find id (w_mvol w1)); inversion H; subst; clear H.
+    + split; auto.
+    + split; auto.
+  - inversion H; subst. split; auto.
+Qed.
+
+Lemma m_new_partition_ok w c w' r :
+  RInv w -> HInv w -> bound w -> m_new_partition w c = (w', r) ->
+  MOk w w' /\ (forall p, r = ROk p -> m_lookup (canon w') p = ROk c).
+Proof.
+  intros HR HH Hb H. unfold m_new_partition in H.
+  assert (M0 : MOk w w).
+  { split; auto. split; auto. split; [apply Frame_refl|]. split; [apply ext_refl | lia]. }
+  destruct (vol_find c (w_mvol w)) as [q|].
+  - destruct (q =? 0).
+    + inversion H; subst. split; auto. discriminate.
+    + set (w0 := set_vol w (vol_put c (q - 1) (w_mvol w))) in *.
+      destruct (set_vol_MOk w (vol_put c (q - 1) (w_mvol w)) HR HH) as [M1 Hc1]. fold w0 in M1, Hc1.
+      destruct M1 as (R1 & H1 & M1').
+      assert (Hb0 : bound w0) by exact Hb.
+      destruct (propose_MOk w0 (CNewPart c) w' r R1 H1 Hb0 H) as (M2 & Er & Ec & _).
+      split.
+      * eapply MOk_trans; [split; [exact R1|split; [exact H1|exact M1']] | exact M2 |].
+        destruct M2 as (_ & _ & _ & _ & L). exact L.
+      * intros p ->. rewrite Ec. symmetry in Er. apply m_apply_newpart_lookup; auto.
+        rewrite Hc1. apply (canon_bounds w Hb).
+  - inversion H; subst. split; auto. discriminate.
+Qed.
+
+Lemma m_heartbeat_ok w c w' r :
+  RInv w -> HInv w -> m_heartbeat w c = (w', r) ->
+  MOk w w' /\ canon w' = canon w /\ (forall ps, r = Some ps -> ps = get_partitions (canon w) c /\ c <> 0).
+Proof.
+  intros HR HH H. unfold m_heartbeat in H. rewrite (RInv_leader_st w HR) in H.
+  destruct (verify_cid (canon w) c) eqn:Ev.
+  - inversion H; subst; clear H.
+    match goal with |- MOk w (set_vol w ?v) /\ _ => destruct (set_vol_MOk w v HR HH) as [M Hc] end.
+    split; auto. split; auto. intros ps Hps. inversion Hps; subst. split; auto.
+    unfold verify_cid in Ev. apply andb_true_iff in Ev as [Ev _]. apply negb_true_iff, N.eqb_neq in Ev. auto.
+  - inversion H; subst. split; [|split; [auto | discriminate]].
+    split; auto. split; auto. split; [apply Frame_refl|]. split; [apply ext_refl | lia].
+Qed.
+
+(* ---------- curator durable commands ---------- *)
+Lemma c_add_part_spec cur p cs ok :
+  c_add_part cur p = (cs, ok) ->
+  c_id cs = c_id cur /\
+  (ok = true -> forall x, In x (c_parts cs) <-> x = p \/ In x (c_parts cur)) /\
+  (ok = false -> cs = cur /\ In p (c_parts cur)).
+Proof.
+  unfold c_add_part. destruct (memN p (c_parts cur)) eqn:E; intros H; inversion H; subst; clear H; simpl.
+  - split; auto. split; [discriminate|]. intros _. split; auto. apply memN_In; auto.
+  - split; auto. split; [|discriminate]. intros _ x. apply ins_sorted_In.
+Qed.
+
+Lemma c_sync_spec cur ps :
+  c_id (c_sync cur ps) = c_id cur /\
+  (forall x, In x (c_parts (c_sync cur ps)) <-> In x (c_parts cur) \/ In x ps).
+Proof.
+  unfold c_sync. revert cur. induction ps as [|p ps IH]; intros cur; simpl.
+  - split; auto. intros; tauto.
+  - destruct (c_add_part cur p) as [cs ok] eqn:E. simpl.
+    destruct (c_add_part_spec cur p cs ok E) as (Hid & Ht & Hf).
+    destruct (IH cs) as [Hid' Hin]. split; [congruence|].
+    intros x. rewrite Hin. destruct ok.
+    + rewrite (Ht eq_refl). intuition.
+    + destruct (Hf eq_refl) as [-> Hp]. intuition. subst; auto.
+Qed.
+
+Lemma node_ok_cur S cur cur' nd :
+  (c_id cur <> 0 -> c_id cur' = c_id cur) -> incl (c_parts cur) (c_parts cur') ->
+  node_ok S cur nd -> node_ok S cur' nd.
+Proof.
+  intros Hid Hin [Hc Hp]. split; [eapply incl_tran; eauto|].
+  destruct (n_pc nd); auto.
+  - destruct Hp as [-> Hp]. split; auto. symmetry; auto.
+  - destruct Hp as (-> & Hp & Hl). split; [symmetry; auto|]. split; auto.
+  - destruct Hp as [-> Hp]. split; auto. symmetry; auto.
+Qed.
+
+Lemma cur_node_In w n nd : cur_node w n = Some nd -> In nd (w_nodes w) /\ n = w_cleader w.
+Proof.
+  unfold cur_node. destruct (Nat.eqb n (w_cleader w)) eqn:E; [|discriminate].
+  intros H. split; [eapply nth_error_In; eauto | apply Nat.eqb_eq; auto].
+Qed.
+
+Lemma CInvP_node S cur nodes f n nd :
+  CInvP S cur nodes f -> node_ok S cur nd -> CInvP S cur (upd_nth n nd nodes) f.
+Proof.
+  intros (H1 & H2 & H3) Hn. split; auto. split; auto. apply Forall_upd_nth; auto.
+Qed.
+
+Lemma CInvP_In S cur nodes f nd : CInvP S cur nodes f -> In nd nodes -> node_ok S cur nd.
+Proof. intros (_ & H & _) Hin. rewrite Forall_forall in H; auto. Qed.
+
+(* replacing the durable state by one with the same id (or a first id) and more partitions, all assigned *)
+Lemma CInvP_cur S cur cur' nodes f :
+  CInvP S cur nodes f ->
+  (c_id cur <> 0 -> c_id cur' = c_id cur) -> incl (c_parts cur) (c_parts cur') ->
+  (forall p, In p (c_parts cur') -> c_id cur' <> 0 /\ m_lookup S p = ROk (c_id cur')) ->
+  CInvP S cur' nodes f.
+Proof.
+  intros (H1 & H2 & H3) Hid Hin Hp. split; auto. split; auto.
+  eapply Forall_impl; [|exact H2]. intros nd. apply node_ok_cur; auto.
+Qed.
+
+(* ================= one step preserves the invariant ================= *)
+Lemma MOk_Inv w w' : Inv w -> MOk w w' -> Inv w'.
+Proof.
+  intros (HR & HH & HC) (R & H & (F1 & F2 & F3 & F4) & E & L).
+  split; auto. split; auto. unfold CInv. rewrite F1, F2, F4. eapply CInvP_ext; eauto.
+Qed.
+
+Lemma set_master_same w rs ld vol :
+  HInv w -> CInv w ->
+  HInv (set_master w (w_log w) rs ld vol (h_cids w) (h_tsids w) (h_parts w)) /\
+  CInv (set_master w (w_log w) rs ld vol (h_cids w) (h_tsids w) (h_parts w)).
+Proof. intros HH HC. split; [unfold HInv, canon in *; simpl; exact HH | unfold CInv, canon in *; simpl; exact HC]. Qed.
+
+Lemma set_curator_Inv w cs ns cl f :
+  RInv w -> HInv w -> CInvP (canon w) cs ns f -> Inv (set_curator w cs ns cl f).
+Proof.
+  intros HR HH HC. split; [unfold RInv, leader_rep in *; simpl; exact HR|].
+  split; [unfold HInv, canon in *; simpl; exact HH | unfold CInv, canon in *; simpl; exact HC].
+Qed.
+
+Lemma honest_nth lg reps j r : Forall (honest lg) reps -> nth_error reps j = Some r -> honest lg r.
+Proof. intros H Hn. rewrite Forall_forall in H. apply H. eapply nth_error_In; eauto. Qed.
+
+Lemma RInv_follower w j r' :
+  RInv w -> j <> w_leader w -> honest (w_log w) r' ->
+  RInv (set_master w (w_log w) (upd_nth j r' (w_reps w)) (w_leader w) (w_mvol w) (h_cids w) (h_tsids w) (h_parts w)).
+Proof.
+  intros (Hh & Hl & Ha) Hj Hr. unfold RInv, leader_rep in *; simpl. split; [|split].
+  - apply Forall_upd_nth; auto.
+  - rewrite upd_nth_length; auto.
+  - rewrite nth_upd_nth_neq; auto.
+Qed.
+
+Lemma ev_catchup_Inv w j k : Inv w -> Inv (ev_catchup w j k).
+Proof.
+  intros (HR & HH & HC). unfold ev_catchup.
+  destruct (Nat.eqb j (w_leader w)) eqn:Ej; [split; [|split]; assumption|]. apply Nat.eqb_neq in Ej.
+  destruct (nth_error (w_reps w) j) as [r|] eqn:En; [|split; [|split]; assumption].
+  destruct (set_master_same w (upd_nth j {| r_applied := r_applied r + length (firstn k (skipn (r_applied r) (w_log w)));
+      r_st := replay_from (r_st r) (firstn k (skipn (r_applied r) (w_log w))) |} (w_reps w)) (w_leader w) (w_mvol w) HH HC) as [H1 H2].
+  split; [|split; auto]. apply RInv_follower; auto. apply honest_catchup.
+  destruct HR as (Hh & _). eapply honest_nth; eauto.
+Qed.
+
+Lemma ev_install_Inv w j : Inv w -> event_safe w (EvInstall j) = true -> Inv (ev_install w j).
+Proof.
+  intros (HR & HH & HC) Hs. unfold ev_install. simpl in Hs.
+  destruct (Nat.eqb j (w_leader w)) eqn:Ej; [split; [|split]; assumption|]. apply Nat.eqb_neq in Ej.
+  destruct (nth_error (w_reps w) j) as [r|] eqn:En; [|split; [|split]; assumption].
+  rewrite (restore_safe _ _ Hs).
+  destruct (set_master_same w (upd_nth j {| r_applied := length (w_log w); r_st := leader_st w |} (w_reps w)) (w_leader w) (w_mvol w) HH HC) as [H1 H2].
+  split; [|split; auto]. apply RInv_follower; auto. rewrite (RInv_leader_st w HR). apply honest_full.
+Qed.
+
+Lemma ev_restart_Inv w j : Inv w -> Inv (ev_restart w j).
+Proof.
+  intros (HR & HH & HC). unfold ev_restart.
+  destruct (Nat.eqb j (w_leader w)) eqn:Ej; [split; [|split]; assumption|]. apply Nat.eqb_neq in Ej.
+  destruct (nth_error (w_reps w) j) as [r|] eqn:En; [|split; [|split]; assumption].
+  destruct (set_master_same w (upd_nth j rep0 (w_reps w)) (w_leader w) (w_mvol w) HH HC) as [H1 H2].
+  split; [|split; auto]. apply RInv_follower; auto. apply honest_rep0.
+Qed.
+
+Lemma ev_leader_Inv w j : Inv w -> Inv (ev_leader w j).
+Proof.
+  intros (HR & HH & HC). unfold ev_leader.
+  destruct (nth_error (w_reps w) j) as [r|] eqn:En; [|split; [|split]; assumption].
+  set (r' := {| r_applied := r_applied r + length (skipn (r_applied r) (w_log w));
+                r_st := replay_from (r_st r) (skipn (r_applied r) (w_log w)) |}).
+  destruct (set_master_same w (upd_nth j r' (w_reps w)) j [] HH HC) as [H1 H2].
+  split; [|split; auto].
+  destruct HR as (Hh & Hl & Ha).
+  assert (Hr : honest (w_log w) r) by (eapply honest_nth; eauto).
+  assert (Hj : (j < length (w_reps w))%nat) by (apply nth_error_Some; congruence).
+  assert (Hr' : honest (w_log w) r').
+  { pose proof (honest_catchup (w_log w) r (length (w_log w)) Hr) as Hc. simpl in Hc.
+    rewrite firstn_all2 in Hc by (rewrite skipn_length; lia). exact Hc. }
+  unfold RInv, leader_rep; simpl. split; [|split].
+  - apply Forall_upd_nth; auto.
+  - rewrite upd_nth_length; auto.
+  - rewrite nth_upd_nth_eq; auto. simpl. rewrite skipn_length. destruct Hr. lia.
+Qed.
+
+Lemma ev_failover_Inv w : Inv w -> event_safe w EvFailover = true -> Inv (ev_failover w).
+Proof.
+  intros (HR & HH & HC) Hs. unfold ev_failover. simpl in Hs. unfold leader_st in Hs.
+  rewrite (restore_safe _ _ Hs).
+  destruct (set_master_same w (upd_nth (w_leader w) {| r_applied := r_applied (leader_rep w); r_st := r_st (leader_rep w) |} (w_reps w)) (w_leader w) [] HH HC) as [H1 H2].
+  split; [|split; auto].
+  destruct HR as (Hh & Hl & Ha).
+  assert (Hlr : honest (w_log w) (leader_rep w)).
+  { rewrite Forall_forall in Hh. apply Hh. apply nth_In; auto. }
+  unfold RInv, leader_rep in *; simpl. split; [|split].
+  - apply Forall_upd_nth; auto.
+  - rewrite upd_nth_length; auto.
+  - rewrite nth_upd_nth_eq; auto.
+Qed.
+
+(* ---------- curator glue ---------- *)
+Lemma c_start_Inv w n : Inv w -> Inv (c_start w n).
+Proof.
+  intros (HR & HH & HC). unfold c_start.
+  destruct (cur_node w n) as [nd|] eqn:En; [|split; [|split]; assumption].
+  destruct (cur_node_In w n nd En) as [Hin _].
+  pose proof (CInvP_In _ _ _ _ nd HC Hin) as [Hcache Hpc].
+  destruct (n_pc nd) eqn:Epc; try (split; [|split]; assumption).
+  destruct (c_id (w_cur w) =? 0) eqn:E0; simpl.
+  - apply set_curator_Inv; auto. apply CInvP_node; auto. split; simpl; auto.
+  - apply N.eqb_neq in E0. destruct (c_parts (w_cur w)) eqn:Ep; simpl.
+    + apply set_curator_Inv; auto. apply CInvP_node; auto. split; simpl; auto. rewrite Ep; auto.
+    + apply set_curator_Inv; auto. apply CInvP_node; auto. split; simpl; auto.
+      rewrite <- Ep. apply incl_refl.
+Qed.
+
+Lemma cur_node_frame w w1 n : Frame w w1 -> cur_node w1 n = cur_node w n.
+Proof. intros (F1 & F2 & F3 & F4). unfold cur_node. rewrite F2, F3. auto. Qed.
+
+Lemma c_register_Inv w n lost : Inv w -> bound w ->
+  Inv (fst (c_register w n lost)) /\ (length (w_log (fst (c_register w n lost))) <= S (length (w_log w)))%nat.
+Proof.
+  intros HI Hb. pose proof HI as (HR & HH & HC). unfold c_register.
+  destruct (cur_node w n) as [nd|] eqn:En; [|simpl; split; auto].
+  destruct (cur_node_In w n nd En) as [Hin _].
+  destruct (n_pc nd) eqn:Epc; try (simpl; split; auto; fail).
+  destruct (m_register_curator w) as [w1 r] eqn:Em.
+  destruct (m_register_curator_ok w w1 r HR HH Hb Em) as [M Hid].
+  pose proof (MOk_Inv w w1 HI M) as HI1. pose proof M as (_ & _ & F & _ & L).
+  destruct r as [id|e]; simpl; [|split; auto].
+  destruct lost; simpl; [split; auto|]. split; [|exact L].
+  destruct HI1 as (HR1 & HH1 & HC1). apply set_curator_Inv; auto. apply CInvP_node; auto.
+  destruct F as (F1 & F2 & F3 & F4). split; simpl; [|apply Hid; auto].
+  rewrite F1. apply (CInvP_In _ _ _ _ nd HC Hin).
+Qed.
+
+Lemma c_commit_reg_Inv w n : Inv w -> Inv (c_commit_reg w n).
+Proof.
+  intros (HR & HH & HC). unfold c_commit_reg.
+  destruct (cur_node w n) as [nd|] eqn:En; [|split; [|split]; assumption].
+  destruct (cur_node_In w n nd En) as [Hin _].
+  pose proof (CInvP_In _ _ _ _ nd HC Hin) as [Hcache Hpc].
+  destruct (n_pc nd) eqn:Epc; try (split; [|split]; assumption).
+  unfold c_set_reg. destruct (c_id (w_cur w) =? 0) eqn:E0.
+  - apply N.eqb_eq in E0. apply set_curator_Inv; auto. apply CInvP_node.
+    + eapply CInvP_cur; eauto; simpl.
+      * intros; congruence.
+      * apply incl_refl.
+      * intros p Hp. destruct HC as (H1 & _). destruct (H1 p Hp). congruence.
+    + split; simpl; auto.
+  - apply N.eqb_neq in E0. apply set_curator_Inv; auto. apply CInvP_node; auto. split; simpl; auto.
+Qed.
+
+Lemma c_new_part_Inv w n lost : Inv w -> bound w ->
+  Inv (fst (c_new_part w n lost)) /\ (length (w_log (fst (c_new_part w n lost))) <= S (length (w_log w)))%nat.
+Proof.
+  intros HI Hb. pose proof HI as (HR & HH & HC). unfold c_new_part.
+  destruct (cur_node w n) as [nd|] eqn:En; [|simpl; split; auto].
+  destruct (cur_node_In w n nd En) as [Hin _].
+  pose proof (CInvP_In _ _ _ _ nd HC Hin) as [Hcache Hpc].
+  destruct (n_pc nd) eqn:Epc; try (simpl; split; auto; fail).
+  destruct (m_new_partition w id) as [w1 r] eqn:Em.
+  destruct (m_new_partition_ok w id w1 r HR HH Hb Em) as [M Hlk].
+  pose proof (MOk_Inv w w1 HI M) as HI1. pose proof M as (_ & _ & F & _ & L).
+  destruct r as [p|e]; simpl; [|split; auto].
+  destruct lost; simpl; [split; auto|]. split; [|exact L].
+  destruct HI1 as (HR1 & HH1 & HC1). apply set_curator_Inv; auto. apply CInvP_node; auto.
+  destruct F as (F1 & F2 & F3 & F4). split; simpl.
+  - rewrite F1. auto.
+  - rewrite F1. destruct Hpc. repeat split; auto.
+Qed.
+
+Lemma c_commit_part_Inv w n : Inv w -> Inv (fst (c_commit_part w n)).
+Proof.
+  intros (HR & HH & HC). unfold c_commit_part.
+  destruct (cur_node w n) as [nd|] eqn:En; [|split; [|split]; assumption].
+  destruct (cur_node_In w n nd En) as [Hin _].
+  pose proof (CInvP_In _ _ _ _ nd HC Hin) as [Hcache Hpc].
+  destruct (n_pc nd) eqn:Epc; try (split; [|split]; assumption).
+  destruct Hpc as (Hid & Hid0 & Hlk).
+  destruct (c_add_part (w_cur w) p) as [cs ok] eqn:Ea.
+  destruct (c_add_part_spec _ _ _ _ Ea) as (Hcid & Ht & Hf).
+  destruct ok; simpl; [|split; [|split]; assumption].
+  specialize (Ht eq_refl).
+  apply set_curator_Inv; auto. apply CInvP_node.
+  - eapply CInvP_cur; eauto.
+    + intros x Hx. apply Ht; auto.
+    + intros x Hx. rewrite Hcid. apply Ht in Hx as [->|Hx].
+      * split; congruence.
+      * destruct HC as (H1 & _). apply H1; auto.
+  - split; simpl.
+    + intros x [<-|[]]. apply Ht; auto.
+    + split; congruence.
+Qed.
+
+Lemma c_monitor_Inv w n lost : Inv w -> bound w ->
+  Inv (fst (c_monitor w n lost)) /\ (length (w_log (fst (c_monitor w n lost))) <= S (length (w_log w)))%nat.
+Proof.
+  intros HI Hb. pose proof HI as (HR & HH & HC). unfold c_monitor.
+  destruct (cur_node w n) as [nd|] eqn:En; [|simpl; split; auto].
+  destruct (cur_node_In w n nd En) as [Hin _].
+  pose proof (CInvP_In _ _ _ _ nd HC Hin) as [Hcache Hpc].
+  destruct (n_pc nd) eqn:Epc; try (simpl; split; auto; fail).
+  destruct Hpc as (Hid & Hid0).
+  destruct (m_new_partition w id) as [w1 r] eqn:Em.
+  destruct (m_new_partition_ok w id w1 r HR HH Hb Em) as [M Hlk].
+  pose proof (MOk_Inv w w1 HI M) as HI1. pose proof M as (_ & _ & F & _ & L).
+  destruct r as [p|e]; simpl; [|split; auto].
+  destruct lost; simpl; [split; auto|].
+  destruct (c_add_part (w_cur w1) p) as [cs ok] eqn:Ea.
+  destruct (c_add_part_spec _ _ _ _ Ea) as (Hcid & Ht & Hf).
+  destruct ok; simpl; [|split; auto]. split; [|exact L].
+  specialize (Ht eq_refl). specialize (Hlk p eq_refl).
+  destruct HI1 as (HR1 & HH1 & HC1). destruct F as (F1 & F2 & F3 & F4).
+  apply set_curator_Inv; auto. apply CInvP_node.
+  - eapply CInvP_cur; eauto.
+    + intros x Hx. apply Ht; auto.
+    + intros x Hx. rewrite Hcid. apply Ht in Hx as [->|Hx].
+      * rewrite F1. split; congruence.
+      * destruct HC1 as (H1 & _). apply H1; auto.
+  - split; simpl.
+    + intros x Hx. apply Ht. apply in_app_or in Hx as [Hx|[<-|[]]]; auto.
+      right. rewrite F1. auto.
+    + rewrite Hcid, F1. split; auto.
+Qed.
+
+Lemma c_heartbeat_Inv w n lost : Inv w ->
+  Inv (fst (c_heartbeat w n lost)) /\ w_log (fst (c_heartbeat w n lost)) = w_log w /\
+  (forall ps, snd (c_heartbeat w n lost) = Some (Some ps) -> lost = false ->
+     let w' := fst (c_heartbeat w n lost) in
+     c_id (w_cur w') <> 0 /\
+     forall p, m_lookup (canon w') p = ROk (c_id (w_cur w')) -> In p (c_parts (w_cur w'))).
+Proof.
+  intros HI. pose proof HI as (HR & HH & HC). unfold c_heartbeat.
+  destruct (cur_node w n) as [nd|] eqn:En; [|simpl; split; [auto | split; [auto | discriminate]]].
+  destruct (cur_node_In w n nd En) as [Hin _].
+  pose proof (CInvP_In _ _ _ _ nd HC Hin) as [Hcache Hpc].
+  destruct (n_pc nd) eqn:Epc; try (simpl; split; [auto | split; [auto | discriminate]]; fail).
+  destruct Hpc as (Hid & Hid0).
+  destruct (m_heartbeat w id) as [w1 r] eqn:Em.
+  destruct (m_heartbeat_ok w id w1 r HR HH Em) as (M & Hcan & Hps).
+  pose proof (MOk_Inv w w1 HI M) as HI1. pose proof M as (_ & _ & F & _ & L).
+  assert (Hlog : w_log w1 = w_log w).
+  { unfold m_heartbeat in Em. destruct (verify_cid (leader_st w) id); inversion Em; subst; reflexivity. }
+  destruct r as [ps|]; simpl; [|split; [auto | split; [auto | discriminate]]].
+  destruct lost; simpl; [split; [auto | split; [auto | discriminate]]|].
+  destruct (Hps ps eq_refl) as [-> _].
+  destruct HI1 as (HR1 & HH1 & HC1). destruct F as (F1 & F2 & F3 & F4).
+  destruct (replay_head (w_log w)) as [l0 Hl0]. fold (canon w) in Hl0.
+  assert (H0 : nth 0 (parts (canon w)) 0 = 0) by (rewrite Hl0; reflexivity).
+  (* the reply is exactly the set of partitions assigned to this curator *)
+  assert (Hrep : forall p, In p (get_partitions (canon w) id) <-> m_lookup (canon w) p = ROk id).
+  { intros p. apply get_partitions_lookup; auto. }
+  (* the sanity check cannot fail *)
+  assert (Hchk : forallb (fun k => memN k (get_partitions (canon w) id)) (n_cache nd) = true).
+  { apply forallb_forall. intros k Hk. apply memN_In. apply Hrep.
+    destruct HC as (H1 & _). destruct (H1 k (Hcache k Hk)). congruence. }
+  rewrite Hchk. simpl.
+  set (ps := get_partitions (canon w) id) in *.
+  set (cs := if Nat.eqb (set_size ps) (set_size (n_cache nd)) then w_cur w1 else c_sync (w_cur w1) ps).
+  assert (Hcs : c_id cs = c_id (w_cur w) /\ incl (c_parts (w_cur w)) (c_parts cs) /\ incl ps (c_parts cs) /\
+                (forall x, In x (c_parts cs) -> In x (c_parts (w_cur w)) \/ In x ps)).
+  { unfold cs. destruct (Nat.eqb (set_size ps) (set_size (n_cache nd))) eqn:Es.
+    - apply Nat.eqb_eq in Es. rewrite F1. split; auto. split; [apply incl_refl|]. split; [|auto].
+      eapply incl_tran; [|exact Hcache]. apply same_size_incl; auto.
+      intros k Hk. rewrite forallb_forall in Hchk. apply memN_In. auto.
+    - destruct (c_sync_spec (w_cur w1) ps) as [Hi Hp]. rewrite F1 in *. split; auto.
+      split; [intros x Hx; apply Hp; auto|]. split; [intros x Hx; apply Hp; auto|]. intros x Hx; apply Hp; auto. }
+  destruct Hcs as (Hcid & Hinc & Hpsin & Hback).
+  split; [|split].
+  - apply set_curator_Inv; auto. rewrite Hcan, F2, F4. apply CInvP_node.
+    + apply CInvP_cur with (cur := w_cur w); auto.
+      intros x Hx. rewrite Hcid. apply Hback in Hx as [Hx|Hx].
+      * destruct HC as (H1 & _). apply H1; auto.
+      * split; [congruence|]. rewrite <- Hid. apply Hrep; auto.
+    + split; simpl; auto. rewrite Hcid. auto.
+  - simpl. exact Hlog.
+  - intros ps' _ _. simpl. rewrite Hcid. split; [congruence|].
+    unfold canon; simpl. rewrite Hlog. fold (canon w). intros p Hp. apply Hpsin. apply Hrep. congruence.
+Qed.
+
+Lemma c_leader_Inv w n : Inv w -> Inv (c_leader w n).
+Proof.
+  intros (HR & HH & HC). unfold c_leader. destruct (Nat.ltb n (length (w_nodes w))); [|split; [|split]; assumption].
+  apply set_curator_Inv; auto.
+Qed.
+
+Lemma c_restart_Inv w n : Inv w -> Inv (c_restart w n).
+Proof.
+  intros (HR & HH & HC). unfold c_restart. destruct (Nat.ltb n (length (w_nodes w))); [|split; [|split]; assumption].
+  apply set_curator_Inv; auto. apply CInvP_node; auto. split; simpl; auto. intros x [].
+Qed.
+
+(* ================= runs ================= *)
+Ltac break_match :=
+  repeat match goal with
+         | |- context [match ?x with _ => _ end] => destruct x eqn:?
+         | |- context [if ?x then _ else _] => destruct x eqn:?
+         end.
+
+Lemma propose_log w c : w_log (fst (propose w c)) = w_log w ++ [c].
+Proof. unfold propose. destruct (m_apply (r_st (leader_rep w)) c). reflexivity. Qed.
+
+Lemma m_register_curator_log w : exists l, w_log (fst (m_register_curator w)) = w_log w ++ l.
+Proof.
+  unfold m_register_curator. pose proof (propose_log w CRegCur) as H.
+  destruct (propose w CRegCur) as [w1 r]. simpl in H.
+  destruct r; [destruct (vol_find v (w_mvol w1))|]; simpl; eauto.
+Qed.
+
+Lemma m_new_partition_log w c : exists l, w_log (fst (m_new_partition w c)) = w_log w ++ l.
+Proof.
+  unfold m_new_partition. destruct (vol_find c (w_mvol w)); [|exists []; simpl; rewrite app_nil_r; auto].
+  destruct (n =? 0); [exists []; simpl; rewrite app_nil_r; auto|].
+  rewrite propose_log. simpl. eauto.
+Qed.
+
+Lemma m_heartbeat_log w c : w_log (fst (m_heartbeat w c)) = w_log w.
+Proof. unfold m_heartbeat. destruct (verify_cid (leader_st w) c); reflexivity. Qed.
+
+Lemma log_grows w e : exists l, w_log (step w e) = w_log w ++ l.
+Proof.
+  assert (Hnil : forall w0, w_log w0 = w_log w -> exists l, w_log w0 = w_log w ++ l).
+  { intros w0 ->. exists []. rewrite app_nil_r. auto. }
+  destruct e; simpl.
+  - rewrite propose_log. eauto.
+  - apply Hnil. unfold ev_catchup. break_match; reflexivity.
+  - apply Hnil. unfold ev_install. break_match; reflexivity.
+  - apply Hnil. unfold ev_restart. break_match; reflexivity.
+  - apply Hnil. unfold ev_leader. break_match; reflexivity.
+  - apply Hnil. reflexivity.
+  - apply m_register_curator_log.
+  - unfold m_register_ts. rewrite propose_log. eauto.
+  - apply Hnil. apply m_heartbeat_log.
+  - apply m_new_partition_log.
+  - apply Hnil. reflexivity.
+  - apply Hnil. unfold c_start. break_match; reflexivity.
+  - unfold c_register. destruct (cur_node w n); [|apply Hnil; reflexivity].
+    destruct (n_pc c); try (apply Hnil; reflexivity).
+    destruct (m_register_curator_log w) as [l Hl]. destruct (m_register_curator w) as [w1 r]. simpl in *.
+    exists l. rewrite <- Hl. destruct r; [destruct lost|]; reflexivity.
+  - apply Hnil. unfold c_commit_reg. break_match; reflexivity.
+  - unfold c_new_part. destruct (cur_node w n); [|apply Hnil; reflexivity].
+    destruct (n_pc c); try (apply Hnil; reflexivity).
+    destruct (m_new_partition_log w id) as [l Hl]. destruct (m_new_partition w id) as [w1 r]. simpl in *.
+    exists l. rewrite <- Hl. destruct r; [destruct lost|]; reflexivity.
+  - apply Hnil. unfold c_commit_part. break_match; reflexivity.
+  - apply Hnil. unfold c_heartbeat. destruct (cur_node w n); [|reflexivity].
+    destruct (n_pc c); try reflexivity.
+    pose proof (m_heartbeat_log w id) as Hl. destruct (m_heartbeat w id) as [w1 r]. simpl in *.
+    rewrite <- Hl. destruct r; [destruct lost|]; try reflexivity. break_match; reflexivity.
+  - unfold c_monitor. destruct (cur_node w n); [|apply Hnil; reflexivity].
+    destruct (n_pc c); try (apply Hnil; reflexivity).
+    destruct (m_new_partition_log w id) as [l Hl]. destruct (m_new_partition w id) as [w1 r]. simpl in *.
+    exists l. rewrite <- Hl. destruct r; [destruct lost|]; try reflexivity.
+    destruct (c_add_part (w_cur w1) v) as [cs ok]. destruct ok; reflexivity.
+  - apply Hnil. unfold c_leader. break_match; reflexivity.
+  - apply Hnil. unfold c_restart. break_match; reflexivity.
+  - apply Hnil. reflexivity.
+  - apply Hnil. reflexivity.
+Qed.
+
+Lemma step_Inv w e : Inv w -> bound w -> event_safe w e = true ->
+  Inv (step w e) /\ (length (w_log (step w e)) <= S (length (w_log w)))%nat.
+Proof.
+  intros HI Hb Hs. pose proof HI as (HR & HH & HC).
+  assert (Hsame : forall w0, Inv w0 -> w_log w0 = w_log w -> Inv w0 /\ (length (w_log w0) <= S (length (w_log w)))%nat).
+  { intros w0 H0 ->. split; auto. }
+  destruct e; simpl.
+  - destruct (propose w c) as [w1 r] eqn:Ep. destruct (propose_MOk w c w1 r HR HH Hb Ep) as (M & _).
+    simpl. split; [eapply MOk_Inv; eauto | apply M].
+  - apply Hsame; [apply ev_catchup_Inv; auto|]. unfold ev_catchup. break_match; reflexivity.
+  - apply Hsame; [apply ev_install_Inv; auto|]. unfold ev_install. break_match; reflexivity.
+  - apply Hsame; [apply ev_restart_Inv; auto|]. unfold ev_restart. break_match; reflexivity.
+  - apply Hsame; [apply ev_leader_Inv; auto|]. unfold ev_leader. break_match; reflexivity.
+  - split; [apply ev_failover_Inv; auto | simpl; lia].
+  - destruct (m_register_curator w) as [w1 r] eqn:Em. destruct (m_register_curator_ok w w1 r HR HH Hb Em) as (M & _).
+    simpl. split; [eapply MOk_Inv; eauto | apply M].
+  - unfold m_register_ts. destruct (propose w CRegTs) as [w1 r] eqn:Ep.
+    destruct (propose_MOk w CRegTs w1 r HR HH Hb Ep) as (M & _).
+    simpl. split; [eapply MOk_Inv; eauto | apply M].
+  - destruct (m_heartbeat w c) as [w1 r] eqn:Em. destruct (m_heartbeat_ok w c w1 r HR HH Em) as (M & _).
+    simpl. split; [eapply MOk_Inv; eauto | apply M].
+  - destruct (m_new_partition w c) as [w1 r] eqn:Em. destruct (m_new_partition_ok w c w1 r HR HH Hb Em) as (M & _).
+    simpl. split; [eapply MOk_Inv; eauto | apply M].
+  - split; auto.
+  - apply Hsame; [apply c_start_Inv; auto|]. unfold c_start. break_match; reflexivity.
+  - apply c_register_Inv; auto.
+  - apply Hsame; [apply c_commit_reg_Inv; auto|]. unfold c_commit_reg. break_match; reflexivity.
+  - apply c_new_part_Inv; auto.
+  - apply Hsame; [apply c_commit_part_Inv; auto|]. unfold c_commit_part. break_match; reflexivity.
+  - destruct (c_heartbeat_Inv w n lost HI) as (H1 & H2 & _). split; auto. rewrite H2. auto.
+  - apply c_monitor_Inv; auto.
+  - apply Hsame; [apply c_leader_Inv; auto|]. unfold c_leader. break_match; reflexivity.
+  - apply Hsame; [apply c_restart_Inv; auto|]. unfold c_restart. break_match; reflexivity.
+  - split; auto.
+  - split; auto.
+Qed.
+
+Lemma Inv_init : Inv w_init.
+Proof.
+  split; [|split].
+  - unfold RInv; simpl. split; [|split; [lia | reflexivity]].
+    repeat constructor.
+  - unfold HInv; simpl. repeat split; constructor.
+  - unfold CInv, CInvP; simpl. split; [intros p []|]. split; [|reflexivity].
+    repeat constructor; simpl; auto; intros x [].
+Qed.
+
+Lemma run_from_Inv evs : forall w,
+  Inv w -> N.of_nat (length (w_log w) + length evs) + 3 < W32 -> trace_safe_from w evs = true ->
+  Inv (run_from w evs) /\ bound (run_from w evs) /\
+  (length (w_log (run_from w evs)) <= length (w_log w) + length evs)%nat /\
+  exists l, w_log (run_from w evs) = w_log w ++ l.
+Proof.
+  induction evs as [|e evs IH]; intros w HI Hb Hs; simpl in *.
+  - split; auto. split; [unfold bound; lia|]. split; [lia|]. exists []. rewrite app_nil_r; auto.
+  - apply andb_true_iff in Hs as [Hs1 Hs2].
+    assert (Hbw : bound w) by (unfold bound; lia).
+    destruct (step_Inv w e HI Hbw Hs1) as [HI' Hl].
+    destruct (IH (step w e) HI') as (H1 & H2 & H4 & l2 & H3); auto; [lia|].
+    split; auto. split; auto. split; [unfold run_from in *; lia|].
+    destruct (log_grows w e) as [l1 Hl1]. exists (l1 ++ l2). unfold run_from in *. rewrite H3, Hl1, app_assoc. auto.
+Qed.
+
+Lemma trace_safe_from_app w a b :
+  trace_safe_from w (a ++ b) = trace_safe_from w a && trace_safe_from (run_from w a) b.
+Proof.
+  revert w. induction a as [|e a IH]; intros w; simpl; auto.
+  rewrite IH. rewrite andb_assoc. reflexivity.
+Qed.
+
+Lemma run_app a b : run (a ++ b) = run_from (run a) b.
+Proof. unfold run, run_from. apply fold_left_app. Qed.
+
+Definition bounded (evs : list event) : Prop := N.of_nat (length evs) + 3 < 4294967296.
+
+Lemma run_Inv evs : trace_safe evs = true -> bounded evs -> Inv (run evs) /\ bound (run evs).
+Proof.
+  intros Hs Hb. destruct (run_from_Inv evs w_init Inv_init) as (H1 & H2 & _); auto.
+Qed.
+
+(* ================= the property-level statements ================= *)
+Lemma ids_unique_lemma evs :
+  trace_safe evs = true -> bounded evs ->
+  NoDup (h_cids (run evs)) /\ NoDup (h_tsids (run evs)) /\ NoDup (map fst (h_parts (run evs))).
+Proof.
+  intros Hs Hb. destruct (run_Inv evs Hs Hb) as ((_ & HH & _) & _).
+  destruct HH as (_ & H1 & _ & H2 & _ & H3). auto.
+Qed.
+
+Lemma ownership_stable_lemma evs evs' p c :
+  trace_safe (evs ++ evs') = true -> bounded (evs ++ evs') ->
+  In (p, c) (h_parts (run evs)) \/ m_lookup (leader_st (run evs)) p = ROk c ->
+  m_lookup (leader_st (run (evs ++ evs'))) p = ROk c.
+Proof.
+  intros Hs Hb Hpc. unfold trace_safe in Hs. rewrite trace_safe_from_app in Hs.
+  apply andb_true_iff in Hs as [Hs1 Hs2]. unfold bounded in Hb. rewrite app_length in Hb.
+  destruct (run_from_Inv evs w_init Inv_init) as (HI1 & Hb1 & Hlen & l1 & Hl1); auto; [unfold W32; simpl; lia|].
+  fold (run evs) in *. simpl in Hlen.
+  destruct (run_from_Inv evs' (run evs) HI1) as (HI2 & Hb2 & _ & l2 & Hl2); auto; [unfold W32; lia|].
+  rewrite run_app.
+  rewrite (RInv_leader_st _ (proj1 HI2)).
+  assert (Hlk : m_lookup (canon (run evs)) p = ROk c).
+  { destruct Hpc as [Hin|Hlk].
+    - destruct HI1 as (_ & HH & _). destruct HH as (_ & _ & _ & _ & H5 & _).
+      rewrite Forall_forall in H5. apply (H5 (p, c)); auto.
+    - rewrite <- (RInv_leader_st _ (proj1 HI1)). auto. }
+  eapply m_lookup_ext; [|exact Hlk]. unfold canon. rewrite Hl2.
+  replace (w_log (run evs)) with (firstn (length (w_log (run evs))) (w_log (run evs) ++ l2)) at 1
+    by (rewrite firstn_app, Nat.sub_diag, firstn_O, app_nil_r, firstn_all; auto).
+  apply replay_ext_prefix. rewrite <- Hl2. unfold bound in Hb2. lia.
+Qed.
+
+Lemma curator_serves_only_assigned_lemma evs :
+  trace_safe evs = true -> bounded evs ->
+  w_fatal (run evs) = false /\
+  forall p, In p (c_parts (w_cur (run evs))) ->
+            c_id (w_cur (run evs)) <> 0 /\ m_lookup (leader_st (run evs)) p = ROk (c_id (w_cur (run evs))).
+Proof.
+  intros Hs Hb. destruct (run_Inv evs Hs Hb) as ((HR & _ & HC) & _).
+  destruct HC as (H1 & _ & H3). split; auto. rewrite (RInv_leader_st _ HR). auto.
+Qed.
+
+Lemma lost_assignment_recovered_lemma evs n ps :
+  trace_safe (evs ++ [EvCHeartbeat n false]) = true -> bounded (evs ++ [EvCHeartbeat n false]) ->
+  snd (c_heartbeat (run evs) n false) = Some (Some ps) ->
+  let w' := run (evs ++ [EvCHeartbeat n false]) in
+  c_id (w_cur w') <> 0 /\
+  (forall p, m_lookup (leader_st w') p = ROk (c_id (w_cur w')) -> In p (c_parts (w_cur w'))) /\
+  (forall p, In (p, c_id (w_cur w')) (h_parts w') -> In p (c_parts (w_cur w'))).
+Proof.
+  intros Hs Hb Hr w'.
+  destruct (run_Inv _ Hs Hb) as (HI' & _). fold w' in HI'.
+  unfold trace_safe in Hs. rewrite trace_safe_from_app in Hs. apply andb_true_iff in Hs as [Hs1 _].
+  assert (Hb1 : bounded evs) by (unfold bounded in *; rewrite app_length in Hb; lia).
+  destruct (run_Inv evs Hs1 Hb1) as (HI & _).
+  destruct (c_heartbeat_Inv (run evs) n false HI) as (_ & _ & Hrec).
+  specialize (Hrec ps Hr eq_refl). simpl in Hrec.
+  assert (Hw' : w' = fst (c_heartbeat (run evs) n false)).
+  { unfold w'. rewrite run_app. reflexivity. }
+  rewrite <- Hw' in Hrec. destruct Hrec as [Hid Hrec].
+  destruct HI' as (HR' & HH' & _).
+  split; auto. split.
+  - rewrite (RInv_leader_st _ HR'). auto.
+  - intros p Hin. apply Hrec. destruct HH' as (_ & _ & _ & _ & H5 & _).
+    rewrite Forall_forall in H5. apply (H5 _ Hin).
+Qed.
+
+(* ================= F7: the refutations, by computation on concrete event sequences ================= *)
+(* replica 1 applies SetReadOnly(true) and then lags; the leader leaves read-only mode and registers curator 1;
+   replica 1 installs the leader's snapshot (ReadOnly=false is not transmitted, so it stays read-only), rejects the
+   next registration (curator 2) which the leader applies; replica 1 takes over, read-only mode is switched off
+   there, and the next registration returns 2 again. *)
+Definition f7_trace : list event :=
+  [EvCmd (CSetRO true); EvCatchup 1 1; EvCmd (CSetRO false); EvCmd CRegCur; EvInstall 1;
+   EvCmd CRegCur; EvLeader 1; EvCmd (CSetRO false); EvCmd CRegCur].
+
+Lemma f7_dup_curator_id : h_cids (run f7_trace) = [1; 2; 2].
+Proof. vm_compute. reflexivity. Qed.
+
+(* the same divergence makes partition 1, handed out to curator 1, be handed out again to curator 2 *)
+Definition f7_trace_part : list event :=
+  [EvCmd CRegCur; EvCmd CRegCur; EvCmd (CSetRO true); EvCatchup 1 3; EvCmd (CSetRO false); EvInstall 1;
+   EvCmd (CNewPart 1); EvLeader 1; EvCmd (CSetRO false); EvCmd (CNewPart 2)].
+
+Lemma f7_partition_reassigned :
+  h_parts (run f7_trace_part) = [(1, 1); (1, 2)] /\ m_lookup (leader_st (run f7_trace_part)) 1 = ROk 2.
+Proof. vm_compute. split; reflexivity. Qed.
+
+Lemma f7_trace_unsafe : trace_safe f7_trace = false /\ trace_safe f7_trace_part = false.
+Proof. vm_compute. split; reflexivity. Qed.
+
+Lemma ids_unique_refuted_lemma :
+  exists evs, bounded evs /\ ~ NoDup (h_cids (run evs)).
+Proof.
+  exists f7_trace. split; [unfold bounded; simpl; lia|]. rewrite f7_dup_curator_id.
+  intros H. inversion H as [|? ? _ H2]; subst. inversion H2 as [|? ? H3 _]; subst. apply H3. left; auto.
+Qed.
+
+Lemma ownership_refuted_lemma :
+  exists evs evs' p c, bounded (evs ++ evs') /\ In (p, c) (h_parts (run evs)) /\
+                       m_lookup (leader_st (run (evs ++ evs'))) p <> ROk c.
+Proof.
+  exists (firstn 7 f7_trace_part), (skipn 7 f7_trace_part), 1, 1.
+  split; [unfold bounded; simpl; lia|]. split; [vm_compute; auto|].
+  vm_compute. discriminate.
 Qed.
